@@ -675,6 +675,96 @@ func c06ChannelOwner(c *Ctx) {
 	recvOK := func(fn *ssa.Function) bool { return ix.WithinNames(fn, "bulkhead.(*bulkhead).ReleasePermit") }
 	n := 0
 	ok := true
+	// walk follows the channel value: through conversions, φs, unexported accessors that return it and in-scope
+	// helpers that take it as an argument; every send / receive found must sit in an acquire / the release function
+	seenV := map[ssa.Value]bool{}
+	var walk func(v ssa.Value, depth int)
+	walk = func(v ssa.Value, depth int) {
+		if seenV[v] || v.Referrers() == nil {
+			return
+		}
+		seenV[v] = true
+		for _, use := range *v.Referrers() {
+			fn := use.Parent()
+			name := c.fn(fn)
+			n++
+			handedOut := func() {
+				ok = false
+				c.Fail(name, c.P.Pos(use.Pos()), fmt.Sprintf("the semaphore channel is used by %T (closed, copied or handed out): only acquire sends and the release receive may touch it", use), "")
+			}
+			switch x := use.(type) {
+			case *ssa.Send:
+				if x.Chan == v && !sendOK(fn) {
+					ok = false
+					c.Fail(name, c.P.Pos(x.Pos()), "a permit is taken (send on the semaphore) outside the three acquire functions", "")
+				} else if x.Chan != v {
+					handedOut()
+				}
+			case *ssa.Select:
+				for _, s := range x.States {
+					if s.Chan != v {
+						if s.Send == v {
+							handedOut()
+						}
+						continue
+					}
+					if s.Dir == types.SendOnly && !sendOK(fn) {
+						ok = false
+						c.Fail(name, c.P.Pos(x.Pos()), "a permit is taken (send on the semaphore) outside the three acquire functions", "")
+					}
+					if s.Dir == types.RecvOnly && !recvOK(fn) {
+						ok = false
+						c.Fail(name, c.P.Pos(x.Pos()), "a permit is returned (receive from the semaphore) outside ReleasePermit", "")
+					}
+				}
+			case *ssa.UnOp:
+				if !recvOK(fn) {
+					ok = false
+					c.Fail(name, c.P.Pos(x.Pos()), "a permit is returned (receive from the semaphore) outside ReleasePermit", "")
+				}
+			case *ssa.DebugRef:
+			case *ssa.ChangeType:
+				walk(x, depth)
+			case *ssa.Phi:
+				walk(x, depth)
+			case *ssa.Return:
+				if depth > 3 || len(x.Results) != 1 || fn.Object() == nil || fn.Object().Exported() {
+					handedOut()
+					continue
+				}
+				for _, caller := range ix.Callers[origin(fn)] {
+					for _, b := range caller.Blocks {
+						for _, in := range b.Instrs {
+							if cv, isV := in.(*ssa.Call); isV {
+								if cal := calleeOf(cv.Common()); cal != nil && origin(cal) == origin(fn) {
+									walk(cv, depth+1)
+								}
+							}
+						}
+					}
+				}
+			case ssa.CallInstruction:
+				cal := calleeOf(x.Common())
+				if cal == nil || depth > 3 || !c.P.InScope[origin(cal)] || x.Common().Value == v {
+					handedOut()
+					continue
+				}
+				cal = origin(cal)
+				found := false
+				for i, a := range x.Common().Args {
+					if a == v && i < len(cal.Params) {
+						found = true
+						walk(cal.Params[i], depth+1)
+					}
+				}
+				if !found {
+					handedOut()
+				}
+			default:
+				handedOut()
+			}
+		}
+	}
 	for _, fn := range c.P.Funcs {
 		for _, b := range fn.Blocks {
 			for _, in := range b.Instrs {
@@ -691,45 +781,12 @@ func c06ChannelOwner(c *Ctx) {
 					if !isLoad {
 						continue // the store in Build
 					}
-					for _, use := range *u.Referrers() {
-						n++
-						name := c.fn(fn)
-						switch x := use.(type) {
-						case *ssa.Send:
-							if !sendOK(fn) {
-								ok = false
-								c.Fail(name, c.P.Pos(x.Pos()), "a permit is taken (send on the semaphore) outside the three acquire functions", "")
-							}
-						case *ssa.Select:
-							for _, s := range x.States {
-								if s.Chan != u {
-									continue
-								}
-								if s.Dir == types.SendOnly && !sendOK(fn) {
-									ok = false
-									c.Fail(name, c.P.Pos(x.Pos()), "a permit is taken (send on the semaphore) outside the three acquire functions", "")
-								}
-								if s.Dir == types.RecvOnly && !recvOK(fn) {
-									ok = false
-									c.Fail(name, c.P.Pos(x.Pos()), "a permit is returned (receive from the semaphore) outside ReleasePermit", "")
-								}
-							}
-						case *ssa.UnOp:
-							if !recvOK(fn) {
-								ok = false
-								c.Fail(name, c.P.Pos(x.Pos()), "a permit is returned (receive from the semaphore) outside ReleasePermit", "")
-							}
-						case *ssa.DebugRef:
-						default:
-							ok = false
-							c.Fail(name, c.P.Pos(use.Pos()), fmt.Sprintf("the semaphore channel is used by %T (closed, copied or handed out): only acquire sends and the release receive may touch it", use), "")
-						}
-					}
+					walk(u, 0)
 				}
 			}
 		}
 	}
-	c.Floor("uses of the semaphore", n, 5)
+	c.Floor("uses of the semaphore", n, 3)
 	if ok {
 		c.Ok("bulkhead.bulkhead.semaphore#uses", "", fmt.Sprintf("%d uses: sends only in AcquirePermit/AcquirePermitWithMaxWait/TryAcquirePermit, receive only in ReleasePermit, never closed or handed out", n))
 	}
